@@ -16,7 +16,16 @@ import (
 // deterministic reader for key generation from the harness PRNG
 type rngReader struct{ r *rand.Rand }
 
-func (x rngReader) Read(p []byte) (int, error) { return x.r.Read(p) }
+// crypto/ecdsa.Sign and crypto/ecdh's GenerateKey call randutil.MaybeReadByte, which reads ONE byte from the reader with
+// probability 1/2 (deliberately non-deterministic). Answering one-byte reads without touching the PRNG keeps the
+// generated operation stream a function of the seed alone (a disagreement replays from the seed, not only from the stored op).
+func (x rngReader) Read(p []byte) (int, error) {
+	if len(p) == 1 {
+		p[0] = 0
+		return 1, nil
+	}
+	return x.r.Read(p)
+}
 
 func curveOfAlg(alg int) (elliptic.Curve, int) {
 	switch alg {
